@@ -62,6 +62,9 @@ class Condition(torch.nn.Module):
         raise NotImplementedError
 
     def _setup_data_functions(self, data_functions, sampler):
+        # work on a copy: the dictionary belongs to the user and may be shared
+        # between several conditions
+        data_functions = dict(data_functions)
         for fun in data_functions:
             data_functions[fun] = UserFunction(data_functions[fun])
         if isinstance(sampler, StaticSampler):
